@@ -12,7 +12,7 @@ func Gen(prop, tier string, seed uint64) *kernel.Plan {
 	g := kernel.NewRng(seed).Derive("plan")
 	kind := []string{"counter", "counter", "map", "list"}[g.Intn(4)]
 	cfg := Config{Kind: kind, Sched: g.U64()}
-	cfg.Realtime = g.Chance(1, 3)
+	cfg.Realtime = g.Chance(1, 3) || prop == "C18"
 	nTasks := g.Range(2, 4)
 	maxCalls := 6
 	if tier == "thorough" {
@@ -76,9 +76,16 @@ func Gen(prop, tier string, seed uint64) *kernel.Plan {
 			evs = append(evs, e)
 		}
 	}
-	// the sync task
+	// the sync task (not for C18: its statement is about realtime clients that "only perform local
+	// operations"; an operation issued while an explicit Sync() of the application holds the delivery
+	// semaphore stays in the buffer until the next operation or Sync - SyncAll does not re-deliver -
+	// which is outside that statement)
 	st := nTasks
-	for n := g.Range(1, 4); n > 0; n-- {
+	nSync := g.Range(1, 4)
+	if prop == "C18" {
+		nSync = 0
+	}
+	for n := nSync; n > 0; n-- {
 		e := Ev{Task: st, Op: "sync"}
 		for k := g.Intn(3); k > 0; k-- {
 			e.F = append(e.F, int32(1<<uint(20+g.Intn(8))))
